@@ -201,7 +201,7 @@ func morphInto(dst, src map[string]any) {
 	}
 }
 
-// shuffled returns an equal map built in a different insertion order (and rebuilds nested non-string-keyed maps).
+// shuffled returns an equal map built in a different insertion order (and rebuilds nested non-string-keyed maps, with new key objects where the keys are pointers).
 func shuffled(m map[string]any, salt int) map[string]any {
 	m2 := map[string]any{}
 	for k, v := range m {
@@ -212,10 +212,42 @@ func shuffled(m map[string]any, salt int) map[string]any {
 				c[kk] = vv
 			}
 			v = c
+		case map[*string]any:
+			// keys held by pointers: equal keys at new addresses, allocated in another order
+			type ent struct {
+				k string
+				v any
+			}
+			es := []ent{}
+			for kk, vv := range t {
+				es = append(es, ent{*kk, vv})
+			}
+			sort.Slice(es, func(a, b int) bool { return es[a].k < es[b].k })
+			c := make(map[*string]any, len(t))
+			for _, i := range allocOrder(len(es)) {
+				kk := es[i].k
+				c[&kk] = es[i].v
+			}
+			v = c
 		case map[any]any:
 			c := make(map[any]any, len(t)+salt%7)
+			type ent struct {
+				k string
+				v any
+			}
+			es := []ent{}
 			for kk, vv := range t {
+				if d, ok := kk.(*ptrDrop); ok {
+					if ks, ok := d.v.(string); ok {
+						es = append(es, ent{ks, vv})
+						continue
+					}
+				}
 				c[kk] = vv
+			}
+			sort.Slice(es, func(a, b int) bool { return es[a].k < es[b].k })
+			for _, i := range allocOrder(len(es)) {
+				c[&ptrDrop{es[i].k}] = es[i].v
 			}
 			v = c
 		}
